@@ -552,7 +552,11 @@ def c11(ctx):
     ctx.vh(["v-serbig", "-seed", str(ctx.seed), "-scale", "1" if q else "3", "-property", "C11"], timeout=3000)
     # every history of <= 2 (thorough 3) operations on ONE Serializer and ONE destination: Serialize x doc x mode, Deserialize of a
     # valid blob of each mode, Deserialize of a blob with a damaged compressed payload / truncated / unknown version
-    ctx.vh(["v-serhist", "-seed", str(ctx.seed), "-len", "2" if q else "3", "-sample", "20000" if q else "300000", "-property", "C11"], timeout=3000)
+    # -- the histories are SerHist.tla's reachable states (its invariant HistoryFree is the claim); longer ones are sampled
+    rh = ctx.tlc("SerHist", consts={"MaxOps": 2 if q else 3}, dump="states", label="serializer histories")
+    ctx.vh(["v-serhist", "-seed", str(ctx.seed), "-dump", rh["dump"], "-expect", str(rh["distinct"]), "-len", "3" if q else "5",
+            "-sample", "20000" if q else "300000", "-property", "C11"], timeout=3000)
+    os.remove(rh["dump"])
     ctx.exhaustive = True
 
 
@@ -715,7 +719,10 @@ def c15(ctx):
         t3 = os.path.join(d, "reuse3.ndjson")
         ctx.vh(["v-pipe", "-family", "reuse", "-n", "3", "-maxhist", "700", "-trace", t3, "-seed", str(ctx.seed), "-property", "C15"], timeout=7200)
         pipeline_trace_validate(ctx, c, t3, "C15")
-    ctx.vh(["v-serhist", "-seed", str(ctx.seed), "-len", "2", "-sample", "20000" if q else "300000", "-property", "C15"], timeout=3000)
+    rh = ctx.tlc("SerHist", consts={"MaxOps": 2}, dump="states", label="serializer histories")
+    ctx.vh(["v-serhist", "-seed", str(ctx.seed), "-dump", rh["dump"], "-expect", str(rh["distinct"]), "-len", "3" if q else "5",
+            "-sample", "20000" if q else "300000", "-property", "C15"], timeout=3000)
+    os.remove(rh["dump"])
     if not m["ok"] and not ctx.mismatches:
         raise Infra("Pipeline.tla (multi-call) fails with the live constants but no history misbehaved on the real code:\n%s" % m["out"][-2500:])
     ctx.exhaustive = q
